@@ -1874,13 +1874,21 @@ class AstEval:
     async def ast_call(self, arg):
         """Evaluate function call."""
         func = await self.aeval(arg.func)
+        lone_star = len(arg.args) == 1 and isinstance(arg.args[0], ast.Starred)
+        if lone_star:
+            # CPython hands a lone *iterable to the call unexpanded: it is iterated after the keyword values
+            star_val = await self.aeval(arg.args[0].value)
+        else:
+            args = await self.eval_elt_list(arg.args)
         kwargs = {}
         for kw_arg in arg.keywords:
             if kw_arg.arg is None:
                 kwargs.update(await self.aeval(kw_arg.value))
             else:
                 kwargs[kw_arg.arg] = await self.aeval(kw_arg.value)
-        args = await self.eval_elt_list(arg.args)
+        if lone_star:
+            args = []
+            args += star_val
         #
         # try to deduce function name, although this only works in simple cases
         #
